@@ -77,39 +77,39 @@ Definition nm_of (tbl : list (var * string)) (x : var) : string :=
   match lookup var_eqb x tbl with Some s => s | None => "" end.
 Definition opt_names (tbl : list (var * string)) (l : list (option var)) : list string :=
   map (fun ox => match ox with Some x => nm_of tbl x | None => "" end) l.
+Definition nonempties (l : list string) : bool := forallb (fun s => negb (String.eqb s "")) l.
 
-(* every node reads exactly the names of its source node's input Vars (after un-trimming), writes the names of all of its output
-   Vars, graph inputs are named after the graph's arguments and graph outputs after the result identity's outputs *)
+(* every node reads exactly the names of its source node's input Vars (after un-trimming) and writes the names of all of its output
+   Vars; graph inputs are named after the graph's arguments, graph outputs after the outputs of the graph's result identity *)
 Section Ok.
 Variable tbl : list (var * string).
+Definition outs_ok (u : nref) (outs : list string) : bool :=
+  list_eqb String.eqb outs (map (nm_of tbl) (outvars (noutsP p) u)) && nonempties outs.
 Fixpoint node_names_ok (n : mnode) : bool :=
   match n with
   | MNode _ _ _ u ins outs al =>
       list_eqb String.eqb (pad (List.length (insP p main u)) ins) (opt_names tbl (insP p main u)) &&
-      Nat.leb (List.length ins) (List.length (insP p main u)) &&
-      Nat.eqb (List.length outs) (noutsP p u) &&
+      outs_ok u outs &&
       (fix go (l : list (string * option mgraph)) : bool :=
          match l with
          | [] => true
          | (k, Some g) :: t => graph_names_ok (sub_id p u k) g && go t
          | (_, None) :: t => go t end) al
-  | MInit _ u => Nat.eqb (noutsP p u) 1 && match insP p main u with [] => true | _ => false end && match subsP p main u with [] => true | _ => false end
-  | MIntro _ u ins outs => list_eqb String.eqb ins (opt_names tbl (insP p main u)) && Nat.eqb (List.length outs) (noutsP p u)
-                           && match subsP p main u with [] => true | _ => false end
-  | MInline _ u ins outs _ => list_eqb String.eqb ins (opt_names tbl (insP p main u)) && Nat.eqb (List.length outs) (noutsP p u)
-                              && match subsP p main u with [] => true | _ => false end
+  | MInit nm u => outs_ok u [nm] && match insP p main u with [] => true | _ => false end
+  | MIntro _ u ins outs => list_eqb String.eqb ins (opt_names tbl (insP p main u)) && outs_ok u outs
+  | MInline _ u ins outs _ => list_eqb String.eqb ins (opt_names tbl (insP p main u)) && outs_ok u outs
   end
 with graph_names_ok (gid : nat) (g : mgraph) : bool :=
   match g with MGraph gi b go_ =>
-    Nat.eqb (List.length gi) (List.length (gargsP p gid)) &&
+    list_eqb String.eqb (map fst gi) (map (nm_of tbl) (gargsP p gid)) && nonempties (map fst gi) &&
     list_eqb String.eqb (map fst go_) (map (nm_of tbl) (gresP p gid)) &&
     (fix go (l : list mnode) : bool := match l with [] => true | n :: t => node_names_ok n && go t end) b
   end.
 End Ok.
 
+(* the table is injective: one name per Var, one Var per name *)
+Definition table_inj (tbl : list (var * string)) : bool :=
+  nodupb var_eqb (map fst tbl) && nodupb String.eqb (map snd tbl).
 Definition names_ok (g : mgraph) : bool :=
-  let tbl := table_graph main g in
-  nodupb var_eqb (map fst tbl) && nodupb String.eqb (map snd tbl) &&
-  forallb (fun kv => negb (String.eqb (snd kv) "")) tbl &&
-  graph_names_ok tbl main g.
+  let tbl := table_graph main g in table_inj tbl && graph_names_ok tbl main g.
 End Table.
